@@ -137,8 +137,9 @@ def finish(ctx, res, level="model_checking"):
         "wall_s": round(wall, 2),
         "violations": nviol,
     }
-    os.makedirs(os.path.join(OUT, "evidence"), exist_ok=True)
-    with open(os.path.join(OUT, "evidence", ctx.prop + ".json"), "w") as f:
+    out = OUT if not getattr(ctx, "replay", False) else os.path.join(ROOT, ".work", "replay")   # a replay never overwrites the evidence of a real run
+    os.makedirs(os.path.join(out, "evidence"), exist_ok=True)
+    with open(os.path.join(out, "evidence", ctx.prop + ".json"), "w") as f:
         json.dump(ev, f, indent=1, default=str)
     print("%s %s: %d evaluations, %d real executions validated, %d TLC states, %d known-finding cases, %d new violation signature(s), %.1fs" % (
         ctx.prop, ctx.tier, res.evaluations, res.traces, res.states, sum(x[1] for x in hit.values()), nviol, wall))
